@@ -5,27 +5,9 @@ pub open spec fn words(cs: Seq<GraphemeCluster>) -> Lang
 {
     if cs.len() == 0 { ISet::empty() } else { words(cs.drop_last()).union(lit_lang(cs.last().graphemes@)) }
 }
-pub proof fn lemma_alt_lang_empty()
-    ensures alt_lang(Seq::<Expression>::empty()) == ISet::<Word>::empty()
-{}
 pub proof fn lemma_words_empty()
     ensures words(Seq::<GraphemeCluster>::empty()) == ISet::<Word>::empty()
 {}
-pub proof fn lemma_alt_lang_push(s: Seq<Expression>, e: Expression)
-    ensures alt_lang(s.push(e)) == alt_lang(s).union(lang(e))
-    decreases s.len()
-{
-    lemma_alt_lang_empty();
-    if s.len() == 0 {
-        assert(s.push(e).drop_first() =~= Seq::<Expression>::empty());
-        assert(s =~= Seq::<Expression>::empty());
-        assert(alt_lang(s.push(e)) =~= alt_lang(s).union(lang(e)));
-    } else {
-        lemma_alt_lang_push(s.drop_first(), e);
-        assert(s.push(e).drop_first() =~= s.drop_first().push(e));
-        assert(alt_lang(s.push(e)) =~= alt_lang(s).union(lang(e)));
-    }
-}
 pub proof fn lemma_words_take_step(cs: Seq<GraphemeCluster>, k: int)
     requires 0 <= k < cs.len()
     ensures words(cs.take(k + 1)) == words(cs.take(k)).union(lit_lang(cs[k].graphemes@))
